@@ -165,3 +165,30 @@ func sizeClass(n int) string {
 		return "even"
 	}
 }
+
+// refPathLen is |PATH(m, D[n])| from the RFC recursion (no hashing).
+func refPathLen(m, n int) int {
+	if n <= 1 {
+		return 0
+	}
+	k := refSplit(n)
+	if m < k {
+		return refPathLen(m, k) + 1
+	}
+	return refPathLen(m-k, n-k) + 1
+}
+
+// refProofLen is |SUBPROOF(m, D[n], b)| from the RFC recursion (no hashing), 0 < m <= n.
+func refProofLen(m, n int, b bool) int {
+	if m == n {
+		if b {
+			return 0
+		}
+		return 1
+	}
+	k := refSplit(n)
+	if m <= k {
+		return refProofLen(m, k, b) + 1
+	}
+	return refProofLen(m-k, n-k, false) + 1
+}
